@@ -218,6 +218,13 @@ def dom_cases():
     out.append(("Kenamond3 point inside the inert obstacle", lambda: Kenamond3(), np.array([[0.0, 1.0], [1.0, 1.0]]), 0.0))
     out.append(("Blake negative radius", lambda: Blake(), np.array([-0.1, 0.2]), 1e-4))
     out.append(("Guderley geometry=1 (documented as planar, not implemented)", lambda: Guderley(geometry=1, gamma=3.0), np.array([0.5, 1.0]), 0.5))
+    # (new cases are appended: witnesses of recorded findings address cases by their index)
+    # the time guard of the Kidder-type solutions in every geometry (the volume factor (1-t)^geometry is positive again after
+    # the singular time for even exponents)
+    for g in (1, 2, 3):
+        for t in (1.0 + 1e-9, 2.0, 3.0):
+            out.append(("Noh2 geometry=%d t=%r (t must be less than 1)" % (g, t), (lambda g=g: Noh2(geometry=g)), r, t))
+            out.append(("Noh2Cog geometry=%d t=%r (t must be less than 1)" % (g, t), (lambda g=g: Noh2Cog(geometry=g)), r, t))
     return out
 
 
@@ -484,7 +491,7 @@ UNITS = [
     Unit("kenamond2.times", gen_k2times, run_k2times, quick=72, thorough=720, min_nontrivial=60),
     Unit("blake.nonpd", gen_blake, run_blake, quick=15 * len(NONPD), thorough=15 * len(NONPD) * 6, min_nontrivial=100),
     Unit("restriction", gen_restr, run_restr, quick=(len(FLAT) + 12) * 2, thorough=(len(FLAT) + 12) * 12, min_nontrivial=len(FLAT)),
-    Unit("domain", gen_dom, run_dom, quick=40, thorough=40, min_nontrivial=30),
+    Unit("domain", gen_dom, run_dom, quick=60, thorough=60, min_nontrivial=45),
     Unit("finite", gen_fin, run_fin, quick=360, thorough=3600, min_nontrivial=250),
     Unit("series", gen_series, run_series, quick=90, thorough=1800, min_nontrivial=60),
 ]
